@@ -445,6 +445,14 @@ func applyTypeTail(inner Type, tail parser.TypeTail) Type {
 		panic("unreachable")
 	}
 
+	if gt.Dimensionality != nil && len(gt.Cases) == 1 {
+		// `int?*` is the type `!vector {items: [null, int]}`: the cases of an optional (or union) item belong
+		// to the vector, array or map itself, as they do in the expanded syntax
+		if item, ok := gt.Cases[0].Type.(*GeneralizedType); ok && item.Dimensionality == nil {
+			gt.Cases = item.Cases
+		}
+	}
+
 	return &gt
 }
 
@@ -829,6 +837,11 @@ func UnmarshalTypeCases(value *yaml.Node) (TypeCases, error) {
 		}
 		if t == nil {
 			return nil, parseError(value, "type null is only supported in unions")
+		}
+
+		if item, ok := t.(*GeneralizedType); ok && item.Dimensionality == nil {
+			// `items: int?` or `items: !union {...}` gives the cases of the container itself, like `items: [null, int]`
+			return item.Cases, nil
 		}
 
 		cases = append(cases, &TypeCase{Type: t, NodeMeta: createNodeMeta(value)})
